@@ -480,9 +480,14 @@ class GIRParser(object):
                 func.is_method = True
                 func.is_inline = True
                 compound.methods.append(func)
-            for i, fieldnode in enumerate(self._find_children(node, _corens('field'))):
-                field = compound.fields[i]
-                self._parse_type_array_length(compound.fields, fieldnode, field.type)
+            # compound.fields also holds the anonymous records, unions and
+            # callbacks among the members: pair each <field> element with
+            # the field object that was created from it
+            names = (_corens('field'), _corens('record'), _corens('union'), _corens('callback'))
+            membernodes = [child for child in node if child.tag in names]
+            for field, fieldnode in zip(compound.fields, membernodes):
+                if fieldnode.tag == _corens('field') and field.type is not None:
+                    self._parse_type_array_length(compound.fields, fieldnode, field.type)
             for func in self._find_children(node, _corens('function')):
                 compound.static_methods.append(
                     self._parse_function_common(func, ast.Function, compound))
